@@ -186,6 +186,32 @@ def literal_twins(ctx, n):
                 break
 
 
+def long_decimals(ctx):
+    """decimal literals on / just above / just below the midpoint of two adjacent doubles, up to 6000 digits long (gen.long_decimal_literals): returned and compared as the
+    nearest double of their exact value"""
+    import math
+    import struct
+    from pyab_experiment.experiment_evaluator import ExperimentEvaluator
+    bits = lambda v: struct.unpack("<Q", struct.pack("<d", v))[0]
+    for text, want, what in gen.long_decimal_literals():
+        src = 'def e { splitters: u if x >= %s { return %s weighted 1 } else { return "lt" weighted 1 } }' % (text, text)
+        ctx.case(("long-decimal", text[:40], len(text), what), True)
+        ctx.count("long-decimals")
+        try:
+            ev, _ = common.quiet(lambda: ExperimentEvaluator(src))
+            got = ev(u=1, x=want)
+            below = ev(u=1, x=math.nextafter(want, -math.inf))
+        except Exception as ex:  # noqa
+            ctx.violation(f"an experiment with a decimal literal of {len(text)} characters ({what}: {text[:24]}…{text[-6:]}) does not compile / evaluate ({common.classify_exc(ex)})",
+                          {"text_head": src[:120], "literal_length": len(text), "literal_head": text[:60], "literal_tail": text[-30:], "what": what})
+            return
+        if type(got) is not float or bits(got) != bits(want) or below != "lt":
+            ctx.violation(f"the decimal literal {text[:24]}…{text[-6:]} ({len(text)} characters, {what}) denotes {want!r}; it is returned as {got!r} and `x >= literal` with x one double "
+                          f"below {want!r} selects {below!r}", {"literal": text if len(text) < 1500 else text[:700] + "…" + text[-700:], "literal_length": len(text), "what": what,
+                                                              "expected": repr(want), "returned": repr(got), "below": repr(below)})
+            return
+
+
 def run(ctx):
     n = N[ctx.tier]
     if ctx.obligation_breaks or ctx.tie_breaks:
@@ -198,6 +224,8 @@ def run(ctx):
     literal_twins(ctx, max(20, n // 20))
     progcases.run_cases(ctx, gen.membership_cases(ctx.rng, 60 if ctx.tier == 'quick' else 1500), check_model=False, want_stages=False)
     k2_probes(ctx)
+    long_decimals(ctx)
+    progcases.run_cases(ctx, gen.type_twin_return_programs(), check_model=False, want_stages=False)
 
 
 def search(ctx):
